@@ -497,6 +497,12 @@ pub fn check(cfg: CheckCfg) -> i32 {
     let _ = std::fs::create_dir_all(&evdir);
     let evpath = format!("{evdir}/{prop}.json");
     std::fs::write(&evpath, serde_json::to_string_pretty(&ev).unwrap()).expect("write evidence");
+    if exit == 2 && violations_new > 0 {
+        // a violation that was minimised and reproduced in a fresh process stands on its own; harness errors in other
+        // runs of the same batch (self-checks tripped by the same broken behaviour, as a rule) do not outrank it
+        println!("NOTE: harness errors were reported above as well; the {violations_new} reproduced violation(s) decide the exit code");
+        exit = 1;
+    }
     println!(
         "{prop}: {} runs, {} distinct semantic traces ({} non-trivial), {} simulated s, {:.1} s wall, {} new violation(s), exit {exit}",
         br.evaluations,
